@@ -774,6 +774,9 @@ def dags(rng, n, alap_share=0.3):
             for c in conts:
                 if c.parent is None and rng.random() < 0.4:
                     c.end = start + timedelta(days=rng.randint(25, 35), hours=17)
+                elif c.parent is not None and rng.random() < 0.25:
+                    # a deadline on a container that is itself inside one (with or without a deadline further up)
+                    c.end = start + timedelta(days=rng.randint(18, 30), hours=rng.choice([12, 17]))
         out.append(("dag%04d" % i, p))
     return out
 
